@@ -58,6 +58,7 @@ class Share:
         self._dyhb_rtt = dyhb_rtt
         # self._alive becomes False upon fatal corruption or server error
         self._alive = True
+        self._failure = None # the Failure passed to _fail(), once abandoned
         self._loop_scheduled = False
         self._lp = log.msg(format="%(share)s created", share=repr(self),
                            level=log.NOISY, parent=logparent, umid="P7hv2w")
@@ -164,6 +165,14 @@ class Share:
         assert segnum >= 0
         o = EventStreamObserver()
         o.set_canceler(self, "_cancel_block_request")
+        if not self._alive:
+            # we were abandoned by _fail() earlier, possibly at a moment when
+            # nobody was subscribed (e.g. a speculative read failed after our
+            # last block was delivered). loop() does nothing for a dead
+            # share, so answer right away instead of leaving this request
+            # (and the SegmentFetcher that made it) waiting forever.
+            o.notify(state=DEAD, f=self._failure)
+            return o
         for i,(segnum0,observers) in enumerate(self._requested_blocks):
             if segnum0 == segnum:
                 observers.add(o)
@@ -828,6 +837,7 @@ class Share:
                 share=repr(self), failure=f,
                 level=level, parent=self._lp, umid="JKM2Og")
         self._alive = False
+        self._failure = f
         for (segnum, observers) in self._requested_blocks:
             for o in observers:
                 o.notify(state=DEAD, f=f)
